@@ -68,7 +68,7 @@ def main():
             r = sh(f"cd {ROOT} && scripts/par_eval.py patch {patch} {p}")
             line = next((l for l in r.stdout.splitlines() if l.startswith(p + " exit")), "")
             ex = int(line.split()[2]) if line else 2
-            clauses = [c.strip(" '[],") for c in line.split("[", 1)[1].split("]")[0].split("', '")] if "[" in line else []
+            clauses = [c.strip(" '[],\"") for c in line.split("[", 1)[1].split("]")[0].split("', '")] if "[" in line else []
             clauses = [c for c in clauses if c]
             detections[p] = {"exit": ex, "clauses": clauses[:4], "detail": "", "secs": round(time.time() - t0, 1)}
             if ex not in (0, 1):
